@@ -52,6 +52,13 @@ def check_traversals(c, origin_sets=None):
     if sorted(n.index for n in order) != list(range(N)):
         missing = [n.name for n in c.nodes if n not in order]
         return f'topological_order yields {len(order)} of {N} nodes (missing {missing[:3]}, duplicates {len(order) - len(set(id(n) for n in order))})'
+    # traversals are independent of each other: a second traversal started while the first is still being consumed changes neither
+    g1 = c.topological_order(); head = [next(g1, None)] if N else []
+    inner = list(c.topological_order()); inner_l = list(c.topological_line_order())
+    rest = head + list(g1) if N else []
+    if [id(n) for n in rest if n is not None] != [id(n) for n in order] or [id(n) for n in inner] != [id(n) for n in order]:
+        return f'topological_order: two traversals of the same circuit that overlap in time disturb each other (outer yields {len(rest)}, inner {len(inner)} of {N} nodes)'
+    if len(inner_l) != len(c.lines): return f'topological_line_order inside another traversal covers {len(inner_l)} of {len(c.lines)} lines'
     pos = {id(n): i for i, n in enumerate(order)}
     for l in c.lines:
         if not ref2.is_state(l.reader.kind) and pos[id(l.driver)] >= pos[id(l.reader)]: return f'topological_order: driver {l.driver.name} comes after its reader {l.reader.name}'
@@ -292,6 +299,9 @@ def run(tier, seed):
     for nl in netlist.g2_shapes() + netlist.g3_random(seed, 20 if tier == 'quick' else 1500) + netlist.g1_primitives()[::5]:
         for style in ('bench', 'verilog', 'lean', 'vbf'): J.append(('corpus', ('nl', nl.to_json(), style)))
     for r in netlist.G4: J.append(('corpus', r))
+    # a net with more than 255 (and more than 65535 would be out of reach) readers: counters must not be narrower than the fan-out
+    wide = netlist.NL('fan300', [('en', 'in'), ('d', 'in')] + [(f'o{k}', 'out') for k in range(100)], [(f'g{k}', 'AND3', [f'o{k}'], ['en', 'd' if k % 7 == 0 else 'en', 'en']) for k in range(100)])
+    for style in ('bench', 'verilog'): J.append(('corpus', ('nl', wide.to_json(), style)))
     for scheme in SCHEMES:
         for nbits in (1, 2, 3):
             for dims in (1, 2):
